@@ -117,8 +117,13 @@ func (s *JSONDB) newWriter(dagFile string, t time.Time, requestID string) (*writ
 
 func (s *JSONDB) ReadStatusRecent(dagFile string, n int) []*model.StatusFile {
 	var ret []*model.StatusFile
-	files := s.latest(s.globPattern(dagFile), n)
+	// A run that was killed before its first status was written leaves a
+	// file without any status behind; it must not use up one of the n slots.
+	files := s.latest(s.globPattern(dagFile), -1)
 	for _, file := range files {
+		if len(ret) >= n {
+			break
+		}
 		status, err := s.cache.LoadLatest(file, func() (*model.Status, error) {
 			return ParseFile(file)
 		})
@@ -134,13 +139,29 @@ func (s *JSONDB) ReadStatusRecent(dagFile string, n int) []*model.StatusFile {
 }
 
 func (s *JSONDB) ReadStatusToday(dagFile string) (*model.Status, error) {
-	file, err := s.latestToday(dagFile, time.Now(), s.latestStatusToday)
+	files, err := s.latestToday(dagFile, time.Now(), s.latestStatusToday)
 	if err != nil {
 		return nil, err
 	}
-	return s.cache.LoadLatest(file, func() (*model.Status, error) {
-		return ParseFile(file)
-	})
+	// Fall back to the previous run when the newest file holds no status yet
+	// (the run has just been opened, or was killed before its first write).
+	var firstErr error
+	for _, file := range files {
+		file := file
+		status, err := s.cache.LoadLatest(file, func() (*model.Status, error) {
+			return ParseFile(file)
+		})
+		if err == nil {
+			return status, nil
+		}
+		if firstErr == nil {
+			firstErr = err
+		}
+	}
+	if errors.Is(firstErr, io.EOF) {
+		return nil, persistence.ErrNoStatusData
+	}
+	return nil, firstErr
 }
 
 func (s *JSONDB) FindByRequestID(dagFile string, requestID string) (*model.StatusFile, error) {
@@ -280,7 +301,7 @@ func (s *JSONDB) newFile(dagFile string, t time.Time, requestID string) (string,
 	), nil
 }
 
-func (s *JSONDB) latestToday(dagFile string, day time.Time, latestStatusToday bool) (string, error) {
+func (s *JSONDB) latestToday(dagFile string, day time.Time, latestStatusToday bool) ([]string, error) {
 	var pattern string
 	if latestStatusToday {
 		pattern = fmt.Sprintf("%s.%s*.*.dat", s.prefixWithDirectory(dagFile), day.Format(dateFormat))
@@ -289,13 +310,13 @@ func (s *JSONDB) latestToday(dagFile string, day time.Time, latestStatusToday bo
 	}
 	matches, err := filepath.Glob(pattern)
 	if err != nil || len(matches) == 0 {
-		return "", persistence.ErrNoStatusDataToday
+		return nil, persistence.ErrNoStatusDataToday
 	}
-	ret := filterLatest(matches, 1)
+	ret := filterLatest(matches, -1)
 	if len(ret) == 0 {
-		return "", persistence.ErrNoStatusData
+		return nil, persistence.ErrNoStatusData
 	}
-	return ret[0], nil
+	return ret, nil
 }
 
 func (s *JSONDB) latest(pattern string, n int) []string {
@@ -359,7 +380,7 @@ func filterLatest(files []string, n int) []string {
 	sort.Slice(files, func(i, j int) bool {
 		return timestamp(files[i]) > timestamp(files[j])
 	})
-	if n > len(files) {
+	if n < 0 || n > len(files) {
 		n = len(files)
 	}
 	return files[:n]
